@@ -158,6 +158,41 @@ impl<T> Default for DenseVecStorage<T> {
     }
 }
 
+#[cfg(feature = "verif-hooks")]
+impl<T> DenseVecStorage<T> {
+    /// Structural self-check for the external runtime-verification harness:
+    /// `data`, `entity_id` and the mask agree in size, and the two index
+    /// tables are inverse to each other on the occupied indices.
+    pub fn verif_check<B: BitSetLike>(&self, mask: B) -> Result<(), String> {
+        if self.data.len() != self.entity_id.len() {
+            return Err(format!(
+                "data.len() = {} but entity_id.len() = {}",
+                self.data.len(),
+                self.entity_id.len()
+            ));
+        }
+        let mut n = 0usize;
+        for i in mask.iter() {
+            n += 1;
+            if (i as usize) >= self.data_id.len() {
+                return Err(format!("mask has {} but data_id.len() = {}", i, self.data_id.len()));
+            }
+            // SAFETY: `i` is in the mask, so `data_id[i]` was written by `insert`.
+            let did = unsafe { self.data_id[i as usize].assume_init() } as usize;
+            if did >= self.entity_id.len() {
+                return Err(format!("data_id[{}] = {} out of bounds ({})", i, did, self.entity_id.len()));
+            }
+            if self.entity_id[did] != i {
+                return Err(format!("entity_id[data_id[{}] = {}] = {}", i, did, self.entity_id[did]));
+            }
+        }
+        if n != self.data.len() {
+            return Err(format!("mask has {} members but data.len() = {}", n, self.data.len()));
+        }
+        Ok(())
+    }
+}
+
 impl<T> SliceAccess<T> for DenseVecStorage<T> {
     type Element = T;
 
